@@ -670,6 +670,9 @@ def r08_14_verdict_is_a_set(ctx, rid='R08.14'):
             return True
         if isinstance(e, ast.Call) and call_name(e) in ('set', 'frozenset'):
             return True
+        if isinstance(e, ast.Call) and isinstance(e.func, ast.Attribute) and e.func.attr in ('union', 'intersection', 'difference', 'copy') \
+                and is_set(f, e.func.value, at, depth):
+            return True         # set().union(..) and friends answer a set
         if isinstance(e, ast.Call) and (call_name(e) or '').startswith(('recognize', '__recognize')):
             return True         # first component of a recogniser's answer, unpacked below
         if isinstance(e, ast.BinOp) and isinstance(e.op, (ast.BitOr, ast.BitAnd, ast.Sub)):
